@@ -42,6 +42,7 @@ def cases(tier, inst):
         for style in ("let", "from"):
             yield (t, style, "op")
         yield (to_fn_form(t), "let", "fn")
+        yield (t, "let", "noentity")          # an(x, condition) without entity()
         if t[0] == "and":
             yield (t, "let", "multi")
     reps = REPRESENTATIVE_4 if tier == "quick" else REPRESENTATIVE_8
@@ -62,7 +63,7 @@ def cases(tier, inst):
 def query_of(case):
     tree, style, form = case
     conds = (tree[1], tree[2]) if form == "multi" else (tree,)
-    return ("Q", "an", "entity", X, conds, (("x", style, "Item", "D"),))
+    return ("Q", "an", "entity0" if form == "noentity" else "entity", X, conds, (("x", style, "Item", "D"),))
 
 
 def run_case(case, inst):
